@@ -1,10 +1,154 @@
-(* C03 - lr_guarded readers see only complete, current states. *)
+(* C03 - lr_guarded readers see only complete, current states.
+   Statements only; every proof is `exact <lemma>` into Proofs/LRProofs.v.
+   All theorems quantify over the number of handle slots per thread, the throw plan
+   (which invocations of user code throw), any number of threads with any programs over
+   {modify f, lock_shared / try_lock_shared* into a slot, read through a slot, release a slot},
+   and every schedule.  R ns pl progs s  :=  s is reachable from the initial state.
+
+   Vocabulary (Proofs/LRProofs.v):
+     holds_handle l h   thread-local state l has the shared handle h in one of its slots;
+                        hd h = the copy it points to, hc h = the counter its deleter decrements,
+                        hsnap h = (ghost) the committed sequence when the handle was completed
+     wr_target l = Some x   the thread is inside an application of the functor or inside a
+                        catch block's restoring copy, and the copy it writes is x
+     committed g        (ghost) the sequence of functors that have taken effect, appended at the
+                        store to m_readingLeft
+     cp g x             copy x (true = m_left); a payload is the list of functors applied to it *)
 From Coq Require Import List Arith ZArith Lia Bool.
 Import ListNotations.
 From GV Require Import Sched Events LRModel LRProofs.
 Local Open Scope Z_scope.
 
-Theorem lr_all_atomics_seq_cst : forall t c g l g' l' es e,
-  tstep t c g l = Some (g', l', es) -> In e es ->
-  emo e = (if is_atomic_kind (ek e) then MO_SEQ_CST else MO_NA).
-Proof. exact all_atomics_seq_cst. Qed.
+(* A thread holding a shared handle sees an object no writer touches: whenever some thread is
+   anywhere inside func(copy) or a catch block's `copy = other copy` (not only while the write
+   window is open), the copy it writes is not the copy of any held handle; the handle's copy is
+   not half-written and still holds the state it had when the handle was taken. *)
+Theorem lr_exclusion : forall ns pl progs s r lr w lw h x,
+  R ns pl progs s -> nth_error (thr s) r = Some lr -> holds_handle lr h ->
+  nth_error (thr s) w = Some lw -> wr_target lw = Some x ->
+  hd h <> x /\ dirty (cp (gl s) (hd h)) = false /\ log (cp (gl s) (hd h)) = hsnap h.
+Proof. exact exclusion. Qed.
+
+(* ... and this holds for as long as the handle is held, writer or no writer: in every reachable
+   state the copy behind a held handle is complete, equals the handle's snapshot, and the
+   snapshot is a prefix of the committed sequence *)
+Theorem lr_handle_state : forall ns pl progs s r lr h,
+  R ns pl progs s -> nth_error (thr s) r = Some lr -> holds_handle lr h ->
+  log (cp (gl s) (hd h)) = hsnap h /\ dirty (cp (gl s) (hd h)) = false /\ prefix (hsnap h) (committed (gl s)).
+Proof. exact handle_state. Qed.
+
+(* no payload access window ever overlaps a write window (no K_FAULT event is ever emitted) *)
+Theorem lr_no_fault : forall ns pl progs s, R ns pl progs s -> faults (gl s) = O.
+Proof. exact no_fault. Qed.
+
+(* a read through a handle returns the complete state of the handle's snapshot: the events of
+   the closing step are exactly `rd_end copy v; ret v` with v the snapshot, no fault event *)
+Theorem lr_no_torn_read : forall ns pl progs s t c l g' l' es,
+  R ns pl progs s -> nth_error (thr s) t = Some l -> at_ l = H_re ->
+  tstep t c (gl s) l = Some (g', l', es) ->
+  exists h, nth_error (slots l) (sl l) = Some (Some h) /\
+            es = [E K_RD_END (o_cp (hd h)) (enc (hsnap h)); ret_ev (enc (hsnap h))].
+Proof. exact read_returns_snapshot. Qed.
+
+(* the copy new readers are directed to is always complete and is the committed sequence *)
+Theorem lr_visible_is_committed : forall ns pl progs s,
+  R ns pl progs s -> log (cp (gl s) (rl (gl s))) = committed (gl s) /\ dirty (cp (gl s) (rl (gl s))) = false.
+Proof. exact visible_is_committed. Qed.
+
+(* the committed (= visible) sequence only grows, by appending, along every schedule *)
+Theorem lr_visible_monotone : forall (s : sys glob loc) sc,
+  prefix (committed (gl s)) (committed (gl (run glob loc tstep s sc))).
+Proof. exact committed_monotone. Qed.
+
+(* the values one reader observes never go backwards: a handle completed (last step of
+   lock_shared, at state s2) after some handle h1 was held (at s1, by any thread) carries the
+   sequence committed at s2, which extends everything seen through h1 *)
+Theorem lr_reads_monotone : forall ns pl progs s1 sc r1 lr1 h1 t c l g' l' es,
+  R ns pl progs s1 -> nth_error (thr s1) r1 = Some lr1 -> holds_handle lr1 h1 ->
+  let s2 := run glob loc tstep s1 sc in
+  nth_error (thr s2) t = Some l -> at_ l = R_ldr -> tstep t c (gl s2) l = Some (g', l', es) ->
+  exists h2, nth_error (slots l') (sl l) = Some (Some h2) /\ hsnap h2 = committed (gl s2) /\
+             prefix (hsnap h1) (hsnap h2).
+Proof. exact reads_monotone. Qed.
+
+(* a lock_shared that completes (a fortiori: starts) after modify(f) reached its return observes
+   f and all earlier modifications: its snapshot extends (state found by that modify) ++ [f] *)
+Theorem lr_read_after_modify : forall ns pl progs s1 sc w lw t c l g' l' es,
+  R ns pl progs s1 -> nth_error (thr s1) w = Some lw -> at_ lw = M_unlock ->
+  let s2 := run glob loc tstep s1 sc in
+  nth_error (thr s2) t = Some l -> at_ l = R_ldr -> tstep t c (gl s2) l = Some (g', l', es) ->
+  exists h2, nth_error (slots l') (sl l) = Some (Some h2) /\ prefix (gold lw ++ [fid lw]) (hsnap h2).
+Proof. exact read_after_modify. Qed.
+
+(* every modify takes effect atomically, exactly once or not at all: at its exit (return, or
+   exception from the second application) the committed sequence is what it found when it took
+   the write mutex plus its functor; at an exception from the first application it is unchanged *)
+Theorem lr_modify_effect : forall ns pl progs s w lw,
+  R ns pl progs s -> nth_error (thr s) w = Some lw ->
+  match at_ lw with
+  | M_unlock | C_unlock false => committed (gl s) = gold lw ++ [fid lw]
+  | C_unlock true => committed (gl s) = gold lw
+  | _ => True
+  end.
+Proof. exact modify_effect. Qed.
+
+(* modifications of different threads are applied one at a time to the same sequence of states:
+   while no writer is inside modify, both copies are complete and equal the committed sequence ... *)
+Theorem lr_serial : forall ns pl progs s,
+  R ns pl progs s -> mtx (gl s) = None ->
+  log (left (gl s)) = committed (gl s) /\ log (right (gl s)) = committed (gl s) /\
+  dirty (left (gl s)) = false /\ dirty (right (gl s)) = false.
+Proof. exact serial_idle. Qed.
+
+(* ... and the committed sequence changes only by the store to m_readingLeft of the thread that
+   owns the write mutex, which appends that thread's functor to the sequence it found *)
+Theorem lr_commit_in_mutex_order : forall ns pl progs s t c l g' l' es,
+  R ns pl progs s -> nth_error (thr s) t = Some l -> tstep t c (gl s) l = Some (g', l', es) ->
+  committed g' = committed (gl s) \/
+  (committed g' = committed (gl s) ++ [fid l] /\ mtx (gl s) = Some t /\ at_ l = M_str /\
+   committed (gl s) = gold l).
+Proof. exact commit_in_mutex_order. Qed.
+
+(* the counters count: each reader counter equals the number of handles registered in it
+   (held, or between the increment and the load of m_readingLeft) *)
+Theorem lr_counters_count : forall ns pl progs s k,
+  R ns pl progs s -> ctr (gl s) k = Z.of_nat (list_sum (map (reg k) (thr s))).
+Proof. exact counters_count. Qed.
+
+(* ---------- non-vacuity: concrete reachable states meeting the hypotheses ---------- *)
+Definition ex_progs := [[Modify 3]; [LockShared 1 0; ReadHandle 0; Release 0; LockShared 2 0]].
+Definition ex_init := init 1 [] ex_progs.
+(* the reader takes a handle (4 steps), then the writer runs up to its open write window (7 steps) *)
+Definition ex_s1 := run glob loc tstep ex_init ([(1,0);(1,0);(1,0);(1,0)] ++ [(0,0);(0,0);(0,0);(0,0);(0,0);(0,0);(0,0)])%nat.
+
+Example ex_reader_and_open_write_window :
+  exists lr lw h, nth_error (thr ex_s1) 1 = Some lr /\ holds_handle lr h /\ hd h = true /\
+                  nth_error (thr ex_s1) 0 = Some lw /\ wr_target lw = Some false /\ at_ lw = A_we true /\
+                  dirty (right (gl ex_s1)) = true.
+Proof. vm_compute. do 3 eexists. split; [reflexivity|]. split; [left; reflexivity|]. repeat split. Qed.
+
+(* the writer flips, passes the first drain, and spins in the second while the handle is held *)
+Definition ex_s2 := run glob loc tstep ex_s1 [(0,0);(0,0);(0,0);(0,0);(0,0);(0,0);(0,0);(0,0);(0,0);(0,0)]%nat.
+Example ex_writer_spins_while_handle_held :
+  (pcof ex_s2 0 = M_d2 \/ pcof ex_s2 0 = M_y2) /\ lc (gl ex_s2) = 1 /\ committed (gl ex_s2) = [3] /\
+  log (left (gl ex_s2)) = [] /\ rl (gl ex_s2) = false.
+Proof. vm_compute. repeat split; auto. Qed.
+
+(* the reader reads (still the old state, through its old handle), releases; the writer completes;
+   a new handle then sees the modification *)
+Definition ex_s3 := run glob loc tstep ex_s2
+  ([(1,0);(1,0);(1,0)] ++ [(1,0);(1,0)] ++ [(0,0);(0,0);(0,0);(0,0);(0,0);(0,0);(0,0)])%nat.
+Example ex_writer_about_to_return : pcof ex_s3 0 = M_unlock /\ log (left (gl ex_s3)) = [3] /\ log (right (gl ex_s3)) = [3].
+Proof. vm_compute. auto. Qed.
+Example ex_read_after_modify :
+  let s4 := run glob loc tstep ex_s3 [(0,0);(1,0);(1,0);(1,0)]%nat in
+  exists l, nth_error (thr s4) 1 = Some l /\ at_ l = R_ldr /\
+            exists r, tstep 1 0 (gl s4) l = Some r /\
+                      nth_error (slots (snd (fst r))) 0 = Some (Some (Hnd false false [3])).
+Proof. vm_compute. eexists. repeat split. eexists. split; reflexivity. Qed.
+
+(* a throwing functor: the first invocation of user code throws; on exit both copies are unchanged *)
+Example ex_throw_first :
+  let s := run glob loc tstep (init 1 [0] [[Modify 5]]) [(0,0);(0,0);(0,0);(0,0);(0,0);(0,0);(0,0);(0,0)]%nat in
+  pcof s 0 = C_unlock true /\ log (left (gl s)) = [] /\ log (right (gl s)) = [] /\ mtx (gl s) = Some 0%nat.
+Proof. vm_compute. auto. Qed.
